@@ -323,7 +323,7 @@ pub fn install_hook() {
 // execution
 // ---------------------------------------------------------------------------------------------------------------
 
-#[derive(Clone, Debug, Serialize, PartialEq, Eq)]
+#[derive(Clone, Debug, Serialize, Deserialize, PartialEq, Eq)]
 pub enum RRet {
     Unit,
     Inserted,
@@ -335,7 +335,7 @@ pub enum RRet {
     Fetched { ret: Result<u64, String>, origin_done: u64 },
 }
 
-#[derive(Clone, Debug, Serialize)]
+#[derive(Clone, Debug, Serialize, Deserialize)]
 pub struct Rec {
     pub t: usize,
     pub i: usize,
@@ -900,6 +900,12 @@ pub fn judge(cfg: &RCfg, ex: &Exec) -> Judged {
 // ---------------------------------------------------------------------------------------------------------------
 
 thread_local! {
+    /// the recorded history of the last free-running execution that failed on this thread (the reproducible unit of a
+    /// free-mode failure: the verdict is a function of the history alone)
+    static LAST_FREE_FAIL: RefCell<Option<(RCfg, Vec<Rec>)>> = const { RefCell::new(None) };
+}
+
+thread_local! {
     /// executions performed by the current worker thread since the last take (evidence counter)
     static EXECUTIONS: RefCell<u64> = const { RefCell::new(0) };
 }
@@ -983,6 +989,7 @@ pub fn exec_case(case: &RCase) -> CaseReport {
                 }
                 if let Some(mut f) = j.failure {
                     f.message = format!("{} [free-running, run {run}]", f.message);
+                    LAST_FREE_FAIL.with(|l| *l.borrow_mut() = Some((case.cfg.clone(), ex.recs.clone())));
                     rep.failure = Some(f);
                     break;
                 }
@@ -1099,11 +1106,22 @@ pub fn check_c02_free_child(tier: Tier, seed: u64) -> i32 {
     let check = Check::new("C02", "exploration", tier, seed);
     let executions = AtomicU64::new(0);
     let dir = std::env::var("C02_CHILD_DIR").unwrap_or_else(|_| "/verif/out/c02child".into());
+    let free_failures: Mutex<Vec<(serde_json::Value, Failure)>> = Mutex::new(vec![]);
     let wrap = |c: &RCase| {
         // remember what is running (one file per worker thread): if the process dies, the parent reports these
         let tid = format!("{:?}", std::thread::current().id()).replace(|ch: char| !ch.is_ascii_digit(), "");
         let _ = std::fs::write(format!("{dir}/current_{tid}.json"), serde_json::to_string(c).unwrap_or_default());
         let r = exec_case(c);
+        if let Some(f) = &r.failure {
+            if f.signature != "harness-panic" {
+                if let Some((cfg, recs)) = LAST_FREE_FAIL.with(|l| l.borrow_mut().take()) {
+                    let mut ff = free_failures.lock().unwrap();
+                    if ff.len() < 4 {
+                        ff.push((json!({"cfg": cfg, "program": c.program, "history": recs}), f.clone()));
+                    }
+                }
+            }
+        }
         let n = executions.fetch_add(take_executions(), Ordering::Relaxed);
         // self-test of the crash path: VERIF_C02_TEST_CRASH makes this process die the way corrupted memory would
         if n > 500 && std::env::var("VERIF_C02_TEST_CRASH").is_ok() {
@@ -1114,7 +1132,23 @@ pub fn check_c02_free_child(tier: Tier, seed: u64) -> i32 {
     let t_max = tier.pick(3, 4);
     check.run_random("free", tier.pick(1_500, 60_000), || case_strategy(2, t_max, tier.pick(4, 5), Mode::Free { runs: tier.pick(20, 100) }), wrap);
     check.set_extra("executions_free", json!(executions.swap(0, Ordering::Relaxed)));
+    // A free-running failure need not reproduce when the program is run again (the OS owns the schedule), but the
+    // verdict is a function of the recorded history alone: the history is saved and is the replay.
+    if check.stats.violations.lock().unwrap().is_empty() {
+        if let Some((case, f)) = free_failures.lock().unwrap().first().cloned() {
+            check.violation("free-history", &case, &f);
+            check.stats.inconclusive.lock().unwrap().retain(|m| !m.contains("did not fail on re-execution"));
+        }
+    }
     check.finish()
+}
+
+/// Replay of a recorded free-running history: judged by the same oracle, no threads involved.
+pub fn replay_history(case: &serde_json::Value) -> Option<Failure> {
+    let cfg: RCfg = serde_json::from_value(case["cfg"].clone()).ok()?;
+    let recs: Vec<Rec> = serde_json::from_value(case["history"].clone()).ok()?;
+    let ex = Exec { recs, bad: vec![], panics: vec![], trace: vec![], aborted: false, switches: 0 };
+    judge(&cfg, &ex).failure
 }
 
 fn run_free_in_child(check: &Check) {
@@ -1169,7 +1203,7 @@ fn run_free_in_child(check: &Check) {
             let msg = text.lines().find(|l| l.trim_start().starts_with("violation signature=")).unwrap_or("").trim().to_string();
             if let Ok(rf) = crate::common::load_replay(&path) {
                 let f = Failure::new(rf.signature.clone(), rf.message.clone());
-                check.violation("free", &rf.case, &f);
+                check.violation(&rf.sub, &rf.case, &f);
             } else {
                 check.stats.inconclusive.lock().unwrap().push(format!("free-running child reported a violation but its replay file is missing: {msg}"));
             }
